@@ -168,8 +168,16 @@ def marking_check(t, scope=None):
         pt = PreTranslator(tree, g, {}, special_functions, const_functions)
     except Exception as e:
         return {'kind': 'pretranslator-raises', 'exc': type(e).__name__, 'msg': str(e)[:100]}
+    enclosing = {}
+    def walk(n, params):
+        enclosing[id(n)] = params
+        if isinstance(n, ast.Lambda):
+            a_ = n.args
+            params = params | {x.arg for x in a_.args + a_.posonlyargs + a_.kwonlyargs} | ({a_.vararg.arg} if a_.vararg else set()) | ({a_.kwarg.arg} if a_.kwarg else set())
+        for c in ast.iter_child_nodes(n): walk(c, params)
+    walk(cond, frozenset())
     for n in pt.externals:
-        bad = names_free(n) & set(QUERY_VARS)
+        bad = names_free(n) & (set(QUERY_VARS) | enclosing.get(id(n), frozenset()))       # query variables and parameters of enclosing lambdas
         if bad:
             return {'kind': 'external-mentions-query-variable', 'src': ast2src(copy.deepcopy(n)), 'names': sorted(bad)}
     for n in pt.externals:
